@@ -168,6 +168,8 @@ def fill_graph(ctx, exe, scratch, B, ops_fn, tag, prop, oracle, emu=None, max_st
         for (v, op, rc, msg, after, emu_msg, nw) in res:
             nruns += 1
             outcomes.add((op[0], rc, nw > 2))
+            if nw > 2:
+                ctx.cov["runs_with_automatic_flush"] = ctx.cov.get("runs_with_automatic_flush", 0) + 1
             if msg == "ABORTED":
                 outcomes.add(("abort", op[0]))
                 continue
@@ -360,8 +362,10 @@ def run_c01(prop, tier):
         ctx.cov["rule"] = ("state = fill level of the staging buffer; every operation (all payload sizes 0,2..16, every jumbo size, flush, "
                            "mark) executed in every reachable fill level for capacities 64/97(/128/200) and in the last 40/100 bytes below "
                            "the real 2 MiB capacity; short writes at every write of every path; the stream on disk is decoded by an independent "
-                           "parser and compared byte-for-byte with the emit log")
-        ctx.cov["distinct_nontrivial"] = ctx.cov["states"]
+                           "parser and compared byte-for-byte with the emit log; non-trivial = runs in which an automatic flush, the 2 MiB boundary window, a short write or the OVNI_TMPDIR relocation was exercised")
+        # non-trivial = distinct runs in which the buffer-full boundary, a short write or the relocation copy was exercised
+        ctx.cov["distinct_nontrivial"] = (ctx.cov.get("runs_with_automatic_flush", 0) + ctx.cov["parts"]["real-window"]["runs"]
+                                          + ctx.cov["parts"]["short-writes"]["runs"] + ctx.cov["parts"]["tmpdir-relocation"]["runs"])
         ctx.cov["traces_validated_against_impl"] = ctx.cov["evaluations"]
         ctx.assumptions += ["payload bytes follow three deterministic patterns", "USE_TSC clock not covered",
                             "AddressSanitizer+UBSan on: a write past the staging buffer is a violation"]
